@@ -28,6 +28,7 @@ import (
 	xpcontroller "github.com/crossplane/crossplane-runtime/pkg/controller"
 	"github.com/crossplane/crossplane-runtime/pkg/logging"
 
+	pkgmetav1 "github.com/crossplane/crossplane/apis/pkg/meta/v1"
 	pkgv1 "github.com/crossplane/crossplane/apis/pkg/v1"
 	"github.com/crossplane/crossplane/internal/controller/apiextensions/definition"
 	"github.com/crossplane/crossplane/internal/controller/apiextensions/offered"
@@ -827,6 +828,76 @@ func runRevisionLock(c *kit.Ctx) {
 				}
 				c.Violate(k2, name, whats[i], map[string]any{"state": st, "reconciles_behind_cache": stale, "trace": evs})
 			}
+		}
+	}
+	// (1c) another revision is being installed while the deleted one leaves the Lock: revision B's
+	// dependency manager (the real one) has read the Lock and is parked right before its write that
+	// adds B; the deleted revision A is reconciled to completion (RemoveSelf, finalizer); B's write
+	// then arrives. Whatever B's write does, A must not be listed in the Lock once it is gone.
+	for fi, st := range []string{"Active", "Inactive", "Active"} {
+		name := fmt.Sprintf("revlock/installing-neighbour/%s/entry-form%d", st, (int(uint64(c.Seed)*198)+fi)%3)
+		if !c.Want(name) {
+			continue
+		}
+		w := revisionWorld(uint64(c.Seed)*198+uint64(fi), []string{st, "Active", "Active"})
+		// prov2-rev is new: not in the Lock yet
+		lk := &unstructured.Unstructured{Object: w.GetObj(lockKey)}
+		ps, _, _ := unstructured.NestedSlice(lk.Object, "packages")
+		var keep []any
+		for _, p := range ps {
+			if m, ok := p.(map[string]any); ok && m["name"] != "prov2-rev" {
+				keep = append(keep, p)
+			}
+		}
+		_ = unstructured.SetNestedSlice(lk.Object, keep, "packages")
+		if err := w.Client("pkgmgr").Update(ctx, lk); err != nil {
+			panic(err)
+		}
+		var keys, whats []string
+		w.AddHook(lockMonitor(&keys, &whats))
+		_ = w.Client("user").Delete(ctx, &unstructured.Unstructured{Object: w.GetObj(sim.Key{Group: "pkg.crossplane.io", Kind: "ProviderRevision", Name: "prov0-rev"})})
+		from := w.LogLen()
+		ra, _ := revisionReconciler(w, "revision0")
+		clB := w.Client("revision2")
+		dmB := revision.NewPackageDependencyManager(clB, dag.NewMapDag, pkgv1.ProviderGroupVersionKind)
+		prB := &pkgv1.ProviderRevision{}
+		if err := clB.Get(ctx, types.NamespacedName{Name: "prov2-rev"}, prB); err != nil {
+			panic(err)
+		}
+		intruded := false
+		clB.OnCall = func(_ int, verb string) {
+			if verb == "update" && !intruded {
+				intruded = true
+				for k := 0; k < 3; k++ {
+					_, _ = ra.Reconcile(ctx, reconcile.Request{NamespacedName: types.NamespacedName{Name: "prov0-rev"}})
+				}
+			}
+		}
+		var errs []string
+		for k := 0; k < 3; k++ {
+			_, _, _, err := dmB.Resolve(ctx, &pkgmetav1.Provider{}, prB)
+			errs = append(errs, fmt.Sprint(err))
+		}
+		clB.OnCall = nil
+		for k := 0; k < 2; k++ {
+			_, _ = ra.Reconcile(ctx, reconcile.Request{NamespacedName: types.NamespacedName{Name: "prov0-rev"}})
+		}
+		if rv := w.GetObj(sim.Key{Group: "pkg.crossplane.io", Kind: "ProviderRevision", Name: "prov0-rev"}); rv == nil {
+			if lock := w.GetObj(lockKey); lock != nil && lockLists(lock, "prov0-rev") {
+				keys = append(keys, "revision-gone-but-still-in-lock:"+st+":re-listed-by-installing-neighbour")
+				whats = append(whats, "the deleted revision was finalized and is gone, but the Lock lists it again after another revision added itself")
+			}
+		}
+		c.Eval(name, intruded)
+		c.Count("revision_lock_installing_neighbour_executions", 1)
+		for i, k2 := range keys {
+			var evs []string
+			for _, e := range w.Log(from) {
+				if e.IsWrite() {
+					evs = append(evs, e.Short())
+				}
+			}
+			c.Violate(k2, name, whats[i], map[string]any{"state": st, "resolve_results_of_the_installing_revision": errs, "trace": evs})
 		}
 	}
 	// (2) interleavings: two revisions deleted at the same time, both controllers update the Lock
